@@ -94,6 +94,7 @@ type FFGOpt struct {
 	Duplicates   bool
 	ByzExtra     int // extra Byzantine votes per checkpoint (equivocations, surround votes, unjustified sources)
 	NodeKey      int // key the node under test signs with itself (no messages are generated for it); -1 none
+	PreferLight  bool // honest validators vote for the competing checkpoint with the FEWEST descendants: votes move the best chain to the shorter branch
 }
 
 // GenScheduleFFG is like GenSchedule but honest validators follow the protocol: they vote
@@ -141,6 +142,9 @@ func (t *Tree) GenScheduleFFG(r *ev.Rand, o FFGOpt) ([]Step, *Fin) {
 	sort.SliceStable(cps, func(i, j int) bool {
 		if cps[i].Height != cps[j].Height {
 			return cps[i].Height < cps[j].Height
+		}
+		if o.PreferLight {
+			return weight[cps[i].Hash] < weight[cps[j].Hash]
 		}
 		return weight[cps[i].Hash] > weight[cps[j].Hash]
 	})
